@@ -1,6 +1,7 @@
 import Infretis.Lemmas.PathAlg
 import Infretis.Lemmas.PathAlgCls
 import Infretis.Lemmas.PathAlgRev
+import Infretis.Lemmas.PathAlgWF
 /-!
 # C15 — path algebra: paste, reverse, copy and classification are consistent
 
@@ -576,5 +577,19 @@ example : checkInterfaces [1, 2, 3] [2, 0, 1] = .ok ⟨some .U, some .R, false, 
     ∧ ordermin [1, 1, 0, 0, 2, 2] = .ok (0, 2) ∧ ordermax [1, 1, 0, 0, 2, 2] = .ok (2, 4)
     ∧ checkInterfaces [0, 1, 2] [0, 1, 2] = .ok ⟨some .L, some .R, true, [false, true, true]⟩ := by
   refine ⟨rfl, rfl, rfl, rfl⟩
+
+
+/-! ## the `WF` hypotheses hold on every reachable state -/
+
+/-- **Every state reachable by any op program** (new / append a new System / append a shared frame /
+    `+=` / copy / reverse / paste / field assignment / in-place `order[0]` / path attribute
+    assignment) is well formed: every frame of every path is a valid reference. So the `WF`
+    hypotheses of the theorems above are met by every path the tie's programs can build. -/
+theorem reachable_wf (ops : List Op) : ∀ p ∈ (Machine.init.run ops).paths, WF (Machine.init.run ops).heap p.frames :=
+  run_wf ops Machine.init (fun p hp => by simp [Machine.init] at hp)
+
+example : (Machine.init.run [.new (some 3) 0, .sys 0 default, .sys 0 default, .copy 0, .paste 0 1 true none,
+      .rev 2 none true]).paths.map (·.frames) = [[0, 1], [2, 3], [1, 0, 3], [4, 5, 6]] := by
+  rfl
 
 end Infretis.C15
